@@ -64,7 +64,14 @@ ALL_BREAKUP_REASONS = [r.value for r in ClusterBreakupReason]
 
 STEPS = (1, 10, 20, 40, 60)     # 0.05, 0.5, 1, 2, 3 s
 
-RX_KINDS = ("plain", "info", "info0", "joinreq", "leavereq", "bk", "bkcpm")
+# received-VAM kinds: single containers and COMBINED ones (what real stations emit: a leader's break-up VAM is a
+# cluster VAM, i.e. information + operation container; a leader can carry the join/leave info of its own other
+# procedures; a member leaving one cluster to join another carries join + leave info in one operation container)
+RX_KINDS = ("plain", "info", "info0", "joinreq", "leavereq", "joinleave", "bkop",        # plain (+ operation container)
+            "bk", "bkcpm", "bk0", "info+join", "info+leave")                             # cluster info + operation container
+RX_WITH_INFO = ("info", "info0", "bk", "bkcpm", "bk0", "info+join", "info+leave")
+RX_WITH_BREAKUP = ("bkop", "bk", "bkcpm", "bk0")
+RX_ONLY_OTHER = ("info0", "bk0")      # cluster id 0 is advertised by O only
 
 
 def alphabet():
@@ -78,7 +85,7 @@ def alphabet():
     a += [("tick", n) for n in STEPS]
     for kind in RX_KINDS:
         for who in ("L", "O"):
-            if kind == "info0" and who == "L":
+            if kind in RX_ONLY_OTHER and who == "L":
                 continue
             for form in ("dict", "wire"):
                 a.append(("rx", kind, who, form))
@@ -273,6 +280,16 @@ def rx_containers(kind, own_cluster_id, shape):
         return V.cluster_info(ADV, shape=shape), V.op_breakup(BK_NORMAL)
     if kind == "bkcpm":
         return V.cluster_info(ADV, shape=shape), V.op_breakup(CPM)
+    if kind == "bk0":
+        return V.cluster_info(0, shape=shape), V.op_breakup(BK_NORMAL)
+    if kind == "bkop":     # break-up indication without information container (as the unit tests build it)
+        return None, V.op_breakup(BK_NORMAL)
+    if kind == "joinleave":
+        return None, dict(V.op_join(target), **V.op_leave(target, "joiningAnotherCluster"))
+    if kind == "info+join":
+        return V.cluster_info(ADV, shape=shape), V.op_join(target)
+    if kind == "info+leave":
+        return V.cluster_info(ADV, shape=shape), V.op_leave(target)
     raise ValueError(kind)
 
 
@@ -455,7 +472,7 @@ class ManagerModel:
         if diff_expect is not None:
             got = mgr_key(w)
             if got != diff_expect:
-                has_info = ev[1] in ("info", "info0", "bk", "bkcpm")
+                has_info = ev[1] in RX_WITH_INFO
                 w.bad.append(dict(kind="wire_dict_divergence", rx=ev[1], who=ev[2], has_cluster_info=has_info,
                                   state_before=pre["state"], differs=key_diff(got, diff_expect), _cut=True))
         w.last = dict(pre_state=pre["state"], ret=ret, exc=exc)
@@ -502,7 +519,7 @@ class ManagerModel:
                 elif jp[0] == "waiting" and w.k - jp[2] >= D_WAIT:
                     jp = None          # not acknowledged in time: failed join (allowed)
             elif kind == "rx" and jp[0] == "waiting" and info_id == jp[1] and exc is None:
-                if post["state"] != "VRU_PASSIVE" and ev[1] in ("info", "info0"):
+                if post["state"] != "VRU_PASSIVE" and ev[1] in RX_WITH_INFO and ev[1] not in RX_WITH_BREAKUP:
                     w.bad.append(dict(kind="join_not_completed", form=ev[3], rx=ev[1], who=ev[2], target=jp[1],
                                       state=post["state"], _cut=True))
                 jp = None
@@ -517,6 +534,20 @@ class ManagerModel:
                 w.leader_rx_k = w.k
         else:
             w.leader, w.leader_rx_k = None, None
+        # ---- P3: the VAM just received announces break-up and comes from the station that is the member's leader
+        # AFTER this VAM (so also when the same VAM completed the join): stand-alone and transmitting by the next
+        # update, whatever else the VAM carried.  Evaluated on a copy.
+        if kind == "rx" and ev[1] in RX_WITH_BREAKUP and exc is None and post["state"] == "VRU_PASSIVE" and sender == w.leader:
+            c = V.snapshot(w)
+            lat, lon = V.pos_of(OWN)
+            with c:
+                c.mgr.update(lat, lon, 1.0, 90.0)
+            ob = observe(c)
+            self.stats["probes"] += 1
+            if ob["state"] != "VRU_ACTIVE_STANDALONE" or not ob["tx"]:
+                w.bad.append(dict(kind="breakup_announced_not_standalone", rx=ev[1], who=ev[2], form=ev[3],
+                                  state_before=pre["state"], joined_by_same_vam=pre["state"] != "VRU_PASSIVE",
+                                  state_after_update=ob["state"], transmitting=ob["tx"], _cut=True))
         if kind == "rx" and info_id is not None:
             w.seen.setdefault(info_id, w.k)
         for c in [c for c, k0 in w.seen.items() if w.k - k0 >= D_UNIQ]:
@@ -571,25 +602,31 @@ class ManagerModel:
         with c:
             c.mgr.on_received_vam(make_rx("plain", None, other, "wire")[0])
         settle(c, "probe_leader_lost_not_standalone", others_speaking=True, silent_ticks=silent + need)
-        # P2: break-up announcement by the leader, every reason, both forms
+        # P2: break-up announcement by the leader, every reason, both forms, whatever else the VAM carries
+        cid = joined if isinstance(joined, int) else ADV
         for reason in ALL_BREAKUP_REASONS:
-            failed_dict = False
-            for form in ("dict", "wire"):
-                c = V.snapshot(w)
-                cid = joined if isinstance(joined, int) else ADV
-                if form == "dict":
-                    vam = V.test_style_vam(w.leader, info=V.cluster_info(cid, shape="dict"), op=V.op_breakup(reason))
-                else:
-                    vam = V.through_coder(V.full_vam(w.leader, info=V.cluster_info(cid, shape="tuple"), op=V.op_breakup(reason)))
-                with c:
-                    c.mgr.on_received_vam(vam)
-                n0 = len(out)
-                settle(c, "probe_breakup_not_standalone", reason=reason, form=form)
-                if len(out) > n0:
+            for carries in ("info+bk", "bk", "info+bk+leave"):
+                op = V.op_breakup(reason)
+                if carries == "info+bk+leave":
+                    op = dict(op, **V.op_leave(ADV + 1, "joiningAnotherCluster"))
+                failed_dict = False
+                for form in ("dict", "wire"):
+                    c = V.snapshot(w)
+                    shape = "dict" if form == "dict" else "tuple"
+                    info = V.cluster_info(cid, shape=shape) if carries != "bk" else None
                     if form == "dict":
-                        failed_dict = True
-                    elif failed_dict:
-                        out.pop()       # not specific to the real-coder form: already reported for the dict form
+                        vam = V.test_style_vam(w.leader, info=info, op=op)
+                    else:
+                        vam = V.through_coder(V.full_vam(w.leader, info=info, op=op))
+                    with c:
+                        c.mgr.on_received_vam(vam)
+                    n0 = len(out)
+                    settle(c, "probe_breakup_not_standalone", reason=reason, form=form, carries=carries)
+                    if len(out) > n0:
+                        if form == "dict":
+                            failed_dict = True
+                        elif failed_dict:
+                            out.pop()       # not specific to the real-coder form: already reported for the dict form
         return out
 
 
@@ -739,6 +776,14 @@ def loop_script(names, variant):
     head = (("do", ("ghosts", lead)), allgps, ("do", ("tick", 10)), ("do", ("create", lead)), allgps,
             ("do", ("assert", "knows_cluster", joiners)))
     head += tuple(("do", ("join", j)) for j in joiners)
+    if variant == "breakup_during_join":
+        # the leader starts its break-up warning while the joiners are still announcing: the cluster VAM that
+        # acknowledges the join (information container) also carries clusterBreakupInfo
+        return head + (("do", ("tick", 10)), allgps, ("do", ("breakup", lead, BK_NORMAL)), ("do", ("tick", 50)), upd_j,
+                       ("do", ("tick", 4)), allgps, upd_j,
+                       ("do", ("assert", "standalone_tx", joiners, "breakup_during_join")),
+                       ("do", ("tick", 4)), allgps, ("do", ("tick", 10)), ("do", ("update", lead)),
+                       ("do", ("assert", "state", lead, "VRU_ACTIVE_STANDALONE")), ("do", ("tick", 4)), allgps)
     head += (("do", ("tick", 10)), allgps, ("do", ("tick", 50)), upd_j)
     if variant == "late":      # the acknowledgement does not arrive within timeClusterJoinSuccess: a failed join is allowed
         return head + (("do", ("tick", 10)), upd_j, ("do", ("assert", "notif", joiners, "leave")),
@@ -1145,8 +1190,20 @@ def _report(ctx, agg, part):
             ctx.total_new += n - 1
 
 
-LOOP_VARIANTS = ("lonely", "late", "breakup", "breakup_cpm", "lost", "leave")
+LOOP_VARIANTS = ("lonely", "late", "breakup", "breakup_cpm", "breakup_during_join", "lost", "leave")
 PASSIVE_PREFIX = (("join", "adv"), ("tick", D_JOIN), ("update",), ("rx", "info", "L", "dict"))
+
+
+def pool_size():
+    """16 workers on a quiet box. The box is shared: when it is oversubscribed (measured: load average 45 on 16 cores)
+    16 forked workers take 10x longer than 2 because of scheduler/steal overhead, so the pool shrinks with the load.
+    Results do not depend on the pool size (ordered merge of the levels, independent loop jobs)."""
+    import os
+    try:
+        load = os.getloadavg()[0]
+    except OSError:
+        load = 0.0
+    return 16 if load < 6 else max(2, min(16, int(96 / load)))
 
 
 def run(ctx):
@@ -1183,7 +1240,8 @@ def run(ctx):
     stats_b = collections.Counter()
     sweep_n = 0
     outcomes_b = set()
-    with mp.Pool(16) as pool:
+    procs = pool_size()
+    with mp.Pool(procs) as pool:
         res_b = pool.imap_unordered(_job_b, jobs_b)
         res_s = pool.imap_unordered(_job_sweep, jobs_s)
         tot, stats, agg_a = level_bfs(pool, ctx.seed, depth, horizon)
@@ -1233,7 +1291,7 @@ def run(ctx):
         distinct_outcomes=len(tot.outcomes | tot_p.outcomes) + len(outcomes_b), exhaustive=bool(b_complete),
         caps=[("A", f"depth {depth}"), ("A:passive", f"prefix {len(PASSIVE_PREFIX)} + depth {extra}")], state_digests=digests,
         vams_emitted=stats_b.get("vams_emitted", 0), vams_delivered=stats_b.get("delivered", 0),
-        complete_runs=stats_b.get("complete_runs", 0), emission_instants=sweep_n,
+        complete_runs=stats_b.get("complete_runs", 0), emission_instants=sweep_n, worker_processes=procs,
         samples=(tot.samples[:2] + samples[:1]) or [[list(e) for e in probe_hist]],
         explanation=("A: every transition is one call into the real VBSClusteringManager (command, update, on_received_vam "
                      "with a hand-built dict or with the output of the real VAM coder, or a clock step); all histories over "
